@@ -7,7 +7,7 @@
    produces behaviours (hist) that harness/csnode injects into the real engine; the verdict
    is taken by Trace_CsContract on what the engine did. *)
 EXTENDS Integers, Sequences, FiniteSets, TLC
-CONSTANTS N, MaxRound, MaxWait, MaxCrash, MaxOps
+CONSTANTS H, N, MaxRound, MaxWait, MaxCrash, MaxOps
 Vals == 0..(N - 1)
 None == "none"
 VARIABLES me, byz, sentv, props, waits, crashes, hist,
@@ -15,7 +15,7 @@ VARIABLES me, byz, sentv, props, waits, crashes, hist,
           inplay    \* values that were proposed so far
 vars == <<me, byz, sentv, props, waits, crashes, hist, rnd, inplay>>
 Others == Vals \ {me}
-Proposer(r) == (1 + r) % N
+Proposer(r) == (H + r) % N
 \* values: "nil", a block fabricated by another validator ("B0".."B3"), or the block the engine itself proposed
 BlockOf(i) == "B" \o ToString(i)
 Blocks == {BlockOf(i) : i \in Others} \cup {"own"}
@@ -50,6 +50,11 @@ Advance ==
   /\ rnd < MaxRound /\ rnd' = rnd + 1
   /\ inplay' = IF Proposer(rnd + 1) = me THEN inplay \cup {"own"} ELSE inplay
   /\ UNCHANGED <<me, byz, sentv, props, waits, crashes, hist>>
+\* the fast-sync client hands over a block with the precommits of some other validators for one round
+Block(r, S, v) ==
+  /\ S # {} /\ S \subseteq Others /\ r \in 0..rnd /\ v \in inplay \ {"own"}
+  /\ Log([op |-> "block", r |-> r, from |-> S, val |-> v])
+  /\ UNCHANGED <<me, byz, sentv, props, waits, crashes, rnd, inplay>>
 \* let the engine's timers run
 Wait == /\ waits < MaxWait /\ waits' = waits + 1 /\ Log([op |-> "wait"])
         /\ UNCHANGED <<me, byz, sentv, props, crashes, rnd, inplay>>
@@ -63,6 +68,7 @@ Crash(mode, k) ==
 Can == Len(hist) < MaxOps
 Next == \/ \E v \in Blocks, pol \in -1..MaxRound : Can /\ Propose(v, pol)
         \/ \E t \in Types, r \in 0..MaxRound, S \in SUBSET Others, v \in Decs : Can /\ Votes(t, r, S, v)
+        \/ \E r \in 0..MaxRound, S \in SUBSET Others, v \in Blocks : Can /\ Block(r, S, v)
         \/ Can /\ Advance
         \/ Can /\ Wait
         \/ \E mode \in {"graceful", "synced", "torn", "all"}, k \in {0, 1, 2, 3, 4, 6, 1000} : Can /\ Crash(mode, k)
